@@ -735,6 +735,15 @@ func (d *decoderState) ReadValue(flags *jsonwire.ValueFlags) (Value, error) {
 	}
 
 	// Handle the next value.
+	switch next {
+	case 'n', 'f', 't', '0', '{', '[':
+		// A JSON object name must be a string. Check this before parsing
+		// the value so that a malformed or truncated one is still reported
+		// at the start of the value, where the input stops being valid.
+		if d.Tokens.Last.NeedObjectName() {
+			return nil, wrapSyntacticError(d, ErrNonStringName, pos, +1)
+		}
+	}
 	oldAbsPos := d.baseOffset + int64(pos)
 	pos, err = d.consumeValue(flags, pos, d.Tokens.Depth())
 	newAbsPos := d.baseOffset + int64(pos)
